@@ -19,6 +19,12 @@
 //	    Tc:<v> (self-consistent deal of threshold v: v commitments, matching share and session id)|
 //	    clen:<len>|clenc:<len>|sid:<raw|zero|empty|othert|otherc|otherd>|twice
 //
+//	ses <seed> <n> <t> <i> <ls>
+//	    a HISTORY of three sessions over ONE member slice (same backing array): session 1 over the list L (the dealer's
+//	    deal for i is approved), then L is edited IN PLACE (<ls> = swap|repl|neg|dup, length kept, member i untouched) and
+//	    a verifier built over the same slice is shown the deal of session 1 (must be rejected), then the edit is undone in
+//	    place and a third verifier over the slice opens it again. Output "s1=[..] s2=[..] s3=[..]".
+//
 // Output: "<res> cert=<0|1>" with <res> = ok approve | ok complaint | err <kind> | panic <site>;
 // cert = Verifier.Deal() != nil after every other member's signed approval was fed in.
 package c08
@@ -214,6 +220,8 @@ func exec(line string) (res h.Result) {
 		return execEnc(w)
 	case "pl":
 		return execPl(w)
+	case "ses":
+		return execSes(w)
 	}
 	panic("bad case line")
 }
@@ -221,6 +229,12 @@ func exec(line string) (res h.Result) {
 func applyList(u *universe, ls string) ([]kyber.Point, []kyber.Scalar) {
 	pubs := append([]kyber.Point{}, u.pubs...)
 	secs := append([]kyber.Scalar{}, u.secs...)
+	return applyListTo(u, ls, pubs, secs)
+}
+
+// applyListTo edits pubs / secs IN PLACE where the variant keeps the length (swap, repl, neg, dup): the returned
+// slices then share their backing arrays with the arguments.
+func applyListTo(u *universe, ls string, pubs []kyber.Point, secs []kyber.Scalar) ([]kyber.Point, []kyber.Scalar) {
 	p := strings.Split(ls, ":")
 	switch p[0] {
 	case "same":
@@ -673,6 +687,20 @@ func gen(tier string, rng *h.Rng, emit func(string)) {
 			}
 		}
 	}
+	// 1b. histories over one member slice edited in place between sessions (state keyed by object identity)
+	for _, nt := range [][2]int{{3, 2}, {5, 3}, {4, 4}} {
+		n, t := nt[0], nt[1]
+		for i := 0; i < n; i++ {
+			a, b := (i+1)%n, (i+2)%n
+			for _, ls := range []string{fmt.Sprintf("repl:%d", a), fmt.Sprintf("neg:%d", a), fmt.Sprintf("swap:%d:%d", a, b),
+				fmt.Sprintf("dup:%d:%d", a, b), fmt.Sprintf("repl:%d", b), "same"} {
+				if !thorough && n > 3 && rng.Intn(3) != 0 {
+					continue
+				}
+				emit(fmt.Sprintf("ses %d %d %d %d %s", seed(), n, t, i, ls))
+			}
+		}
+	}
 	// 2. byte-level mutations of the deal opened by its addressee
 	type cfg struct{ n, t int }
 	cfgs := []cfg{{3, 2}}
@@ -797,4 +825,66 @@ func dedupe2(v []string) []string {
 		}
 	}
 	return out
+}
+
+// execSes: state carried across sessions keyed by the IDENTITY of the member slice (round 5, seed C08f-2: the encoding
+// of the member list memoised by {&points[0], len}) shows only when one slice object lives through several sessions
+// and is edited in place between them.
+func execSes(w []string) (res h.Result) {
+	seed, n, t, i := uint64(h.BigDec(w[1]).Uint64()), h.Atoi(w[2]), h.Atoi(w[3]), h.Atoi(w[4])
+	ls := w[5]
+	u := mkUniverse(seed, n, t)
+	L := append([]kyber.Point{}, u.pubs...) // THE slice of the whole history
+	S := append([]kyber.Scalar{}, u.secs...)
+	dpub := dkgnet.Pub(u.dlong)
+	dealer, err := vss.NewDealer(suite, u.dlong, dkgnet.Scalar(u.secret), L, t)
+	if err != nil {
+		res.Impl, res.Class = "err newdealer", "ses-newdealer-err"
+		return
+	}
+	e0, err := dealer.EncryptedDeal(i)
+	if err != nil {
+		panic(err)
+	}
+	pd, _ := dealer.PlaintextDeal(i)
+	commits := pd.Commitments
+	session := func() string {
+		v, err := vss.NewVerifier(suite, u.secs[i], dpub, L)
+		if err != nil {
+			return "err notmember cert=0"
+		}
+		out, _, cert := process(v, cloneED(e0), S)
+		return fmt.Sprintf("%s cert=%d", out, b2i(cert))
+	}
+	ctx1 := vss.VerifContext(suite, dpub, L)
+	sid1, _ := vss.VerifSessionID(suite, dpub, L, commits, t)
+	s1 := session()
+	origP, origS := append([]kyber.Point{}, L...), append([]kyber.Scalar{}, S...)
+	applyListTo(u, ls, L, S) // in place
+	changed := !dkgnet.PointsEqual(L, origP)
+	ctx2 := vss.VerifContext(suite, dpub, L)
+	sid2, _ := vss.VerifSessionID(suite, dpub, L, commits, t)
+	fresh := append([]kyber.Point{}, L...)
+	ctx2f := vss.VerifContext(suite, dpub, fresh)
+	sid2f, _ := vss.VerifSessionID(suite, dpub, fresh, commits, t)
+	s2 := session()
+	copy(L, origP)
+	copy(S, origS)
+	s3 := session()
+	res.Impl = fmt.Sprintf("s1=[%s] s2=[%s] s3=[%s]", s1, s2, s3)
+	res.Nontrivial = changed
+	res.Class = "ses-" + strings.Split(ls, ":")[0] + "-" + strings.Fields(s2)[0] + "-" + strings.Fields(s2)[1]
+	switch {
+	case s1 != "ok approve cert=1" || s3 != "ok approve cert=1":
+		res.Oracle = "honest-deal-not-approved: session over the list the deal was made for: " + s1 + " / " + s3
+	case changed && strings.HasPrefix(s2, "ok"):
+		res.Oracle = "opened-stale-member-list: a deal made for the member list of an earlier session was opened by a verifier built over the UPDATED list (the same slice, edited in place: " + ls + "): " + s2
+	case changed && strings.Contains(s2, "cert=1"):
+		res.Oracle = "deal-set-after-reject: Verifier.Deal() is set although ProcessEncryptedDeal failed"
+	case !bytes.Equal(ctx2, ctx2f) || !bytes.Equal(sid2, sid2f):
+		res.Oracle = "context-depends-on-slice-identity: context / session id over the edited slice differ from those over a fresh copy with the same content"
+	case changed && (bytes.Equal(ctx1, ctx2) || bytes.Equal(sid1, sid2)):
+		res.Oracle = "context-collision: context / session id did not change when the member slice was edited in place (" + ls + ")"
+	}
+	return
 }
